@@ -569,11 +569,14 @@ func (w *world) joinWindow(prefix string) func() bool {
 	// during the call is in flight in the same sense: handleChanges applies it to the listeners
 	// it captured, a subscriber attaching meanwhile may replay the values from before it
 	recent = recent || (vt.snapshots >= 2 && time.Since(vt.lastSnapshot) <= 5*time.Second)
-	lag := !upToDate()
+	// events of the range that exist in the store but have not been handed to go-zero yet are in
+	// flight too, even if they cancel out (put + delete) so that the contents agree
+	behind := func() bool { return vt.toldRev < w.st.modRev[prefix] }
+	lag := !upToDate() || behind()
 	return func() bool {
 		// which of two overlapping joins reaches the registry first is the scheduler's choice
 		late := late || w.joinsBegun[prefix] >= 2
-		race := late && (recent || lag || rev != w.st.rev || del != vt.deliveries || snaps != vt.snapshots || !upToDate())
+		race := late && (recent || lag || rev != w.st.rev || del != vt.deliveries || snaps != vt.snapshots || !upToDate() || behind())
 		if race {
 			w.r.Probe("late-join-with-events-in-flight")
 		}
